@@ -63,8 +63,10 @@ fn run<K: Raw>(req: &str, cont: &str, seq: &[u8], rest: &[&str]) -> String {
             if req == "rc" {
                 let r = s.rc();
                 let rr = r.rc();
-                format!("rc={} rcrc={} kmers={} inv={} pal={}", show_digits(&bases(&r)), show_digits(&bases(&rr)), show_ks(&r.iter_kmers::<K>().collect::<Vec<K>>()),
-                    (rr == s) as u8 + 2 * (s == rr) as u8, (s == r) as u8 + 2 * (r == s) as u8)
+                // owned copies: of the rc view, and the rc of the owned copy of the view itself
+                format!("rc={} rcrc={} kmers={} inv={} pal={} own={} ownrc={}", show_digits(&bases(&r)), show_digits(&bases(&rr)), show_ks(&r.iter_kmers::<K>().collect::<Vec<K>>()),
+                    (rr == s) as u8 + 2 * (s == rr) as u8, (s == r) as u8 + 2 * (r == s) as u8,
+                    show_digits(&bases(&r.to_owned())), show_digits(&bases(&s.to_owned().rc())))
             } else { on_vmer::<K, _>(&s, req, rest) }
         }
         "lmer" => match f[1] {
@@ -109,8 +111,8 @@ pub fn exec(a: &[&str]) -> String {
     with_named_kmer!(a[0], run, a[1], a[2], &seq, &a[4..])
 }
 
-const KTYPES: [(&str, usize); 12] = [("Kmer2", 2), ("Kmer4", 4), ("Kmer5", 5), ("Kmer8", 8), ("Kmer12", 12), ("Kmer16", 16), ("Kmer20", 20),
-    ("K31", 31), ("Kmer32", 32), ("Kmer40", 40), ("Kmer48", 48), ("Kmer64", 64)];
+const KTYPES: [(&str, usize); 15] = [("Kmer2", 2), ("Kmer4", 4), ("Kmer5", 5), ("Kmer8", 8), ("Kmer12", 12), ("Kmer16", 16), ("Kmer20", 20),
+    ("K31", 31), ("Kmer32", 32), ("Kmer40", 40), ("Kmer48", 48), ("Kmer64", 64), ("VK4", 4), ("V16K4", 4), ("V128K31", 31)];
 
 fn container(rng: &mut Rng, k: usize, allow_bytes: bool) -> (String, Vec<u8>, usize) {
     // returns (spec, backing sequence, length of the viewed sequence)
